@@ -341,6 +341,20 @@ def run_history(sc: dict) -> dict:
                 loop.run_until_complete(asyncio.sleep(0))
             except BaseException:  # noqa
                 pass
+            # The loop has ended the way asyncio.run() ends it (all tasks cancelled) and nothing is running now: the bus that WAS used
+            # in that loop must refuse a dispatch from plain synchronous code just like a fresh one, and keep no trace of it (C14)
+            ub = out.get('bus')
+            if ub is not None and not out.get('hang'):
+                late = X(tag=-3)
+                try:
+                    ub.dispatch(late)
+                    viol.append(('C14.b', 'dispatch() on a bus whose event loop has ended (no running loop) returned instead of raising: the event is accepted and nothing will ever process it'))
+                except RuntimeError:
+                    if late.event_id in ub.event_history or ub.name in late.event_path:
+                        viol.append(('C14.b', 'dispatch() on a bus whose event loop has ended raised but left the event in the history / path'))
+                    info['rejected-no-loop'] += 1
+                except Exception as ex:  # noqa
+                    viol.append(('C14.b', f'dispatch() on a bus whose event loop has ended raised {type(ex).__name__}: {ex}'))
             try:
                 loop.run_until_complete(td())
             except BaseException:  # noqa
